@@ -200,6 +200,27 @@ class H1Server(Peer):
         self.events: list[tuple[str, typing.Any]] = []
         self.switched = False  # after 101 / CONNECT 2xx: raw mode
         self.raw_after_switch = b""
+        # early=True: the (one, final) response is sent as soon as the request
+        # head has arrived; the server keeps the connection open and keeps
+        # consuming the request body (legal HTTP/1.1)
+        self.early = False
+        self._answered_early = False
+
+    def _early_response(self) -> None:
+        end = self.buf.find(b"\r\n\r\n")
+        if end < 0:
+            return
+        lines = self.buf[:end].split(b"\r\n")
+        m = _REQ_LINE.match(lines[0])
+        if not m or not all(_HDR_LINE.match(line) for line in lines[1:]):
+            return  # the complete parse below reports the violation
+        headers = [(h.group(1), h.group(2)) for h in (_HDR_LINE.match(line) for line in lines[1:]) if h]
+        head = Req(m.group(1), m.group(2), headers, b"", None, self.buf[: end + 4])
+        resp = self.respond(head, len(self.requests))
+        self.responses.append(resp)
+        self.out += resp.serialize()
+        self.events.append(("early-response", head.target))
+        self._answered_early = True
 
     def receive(self, data: bytes) -> None:
         self.raw += data
@@ -213,6 +234,8 @@ class H1Server(Peer):
             return
         self.buf += data
         while self.buf and not self.closed and not self.switched:
+            if self.early and not self._answered_early:
+                self._early_response()
             try:
                 r = parse_request(self.buf)
             except ParseViolation as v:
@@ -225,6 +248,9 @@ class H1Server(Peer):
             self.buf = self.buf[used:]
             self.requests.append(req)
             self.events.append(("request", req.target))
+            if self._answered_early:
+                self._answered_early = False
+                continue
             resp = self.respond(req, len(self.requests) - 1)
             self.responses.append(resp)
             self.out += resp.serialize()
